@@ -1,12 +1,15 @@
 """C07 - lazy loading is transparent (M-Layer correspondence, four read-variants, shadow-spec oracle)."""
 import layer_common as lc
+import persist_common as pc
 
 MODEL = "layer"
 SHRINKABLE = True
 RULE = ("generated glyph sets (0-6 glyphs over 8 names; unicodes, components, image reference, outline kind) x "
         "{unread, partially pre-read, fully pre-read, memory-only twin} x op lists (get/new/insert/delete/rename/"
         "setUnicodes/edit/save/first access to unicodeData); all layer-level queries compared after every op; "
-        "non-trivial = a non-empty glyph set and at least one mutating op; distinct = distinct (content, variant, ops)")
+        "non-trivial = a non-empty glyph set and at least one mutating op; distinct = distinct (content, variant, ops); plus "
+        "whole fonts (all top-level parts, images, data, layers, glyph structure edits as first touch) x edit/save histories "
+        "in every save mode, each run unread / fully read / partly read / as a memory-only twin against one shadow content")
 ASSUMPTIONS = [
     "renames never target a name that is present (the code silently overwrites; outside the property's domain)",
     "glyph unicodes lists carry no duplicates (glifLib enforces on read)",
@@ -21,16 +24,61 @@ JUDGED = ("keys", "comps", "images", "outlines", "uni", "saved")
 PROP = "C07"
 
 
+MODES = ["inplace", "inplace", "new", "overufo"]
+PARTS = ["info", "kerning", "groups", "features", "lib"]
+
+
 def generate(rng, tier):
     groups, maxops = (150, 14) if tier == "quick" else (4000, 30)
     for _ in range(groups):
         for c in lc.gen_group(rng, maxops, uni_weight=1.0, incoherent_rate=0.3):
             yield c
+    # whole fonts (info, kerning, groups, features, lib, images, data, layers, glyph structure): one content and one
+    # edit/save history, run with nothing read beforehand, with everything read beforehand, with a random subset read, and
+    # on a memory-only twin; every run must end with the same UFOs and the same memory (oracle only: the shadow content)
+    n = 60 if tier == "quick" else 1500
+    for _ in range(n):
+        c = pc.gen_case(rng, tier, MODES, maxops=10 if tier == "quick" else 24)
+        c["whole_font"] = True
+        yield c
 
 
-model_lines = lc.model_lines
-neighbourhood = lc.neighbourhood
+def model_lines(case):
+    if case.get("whole_font"):
+        return []
+    return lc.model_lines(case)
+
+
+def neighbourhood(case, step, rng):
+    if case.get("whole_font"):
+        return iter(())
+    return lc.neighbourhood(case, step, rng)
+
+
+def _variants(case):
+    all_g = [[l["name"], gn] for l in case["spec"]["layers"] for gn in l["glyphs"]]
+    yield "unread", dict(case, origin="disk", preread=[], preread_glyphs=[])
+    yield "all-read", dict(case, origin="disk", preread=list(PARTS), preread_glyphs=all_g)
+    yield "some-read", dict(case, origin="disk")
+    yield "memory", dict(case, origin="memory", preread=[], preread_glyphs=[])
 
 
 def run_impl(case):
-    return lc.run_case(case, PROP, JUDGED)
+    if not case.get("whole_font"):
+        return lc.run_case(case, PROP, JUDGED)
+    viol = []
+    stats = {"whole_font_cases": 1}
+    outcomes = {}
+    for vname, c in _variants(case):
+        r = pc.run_case(c, PROP)
+        for k, v in r["info"]["stats"].items():
+            if k.startswith(("op.", "save.")):
+                stats["wf." + k] = stats.get("wf." + k, 0) + v
+        outcomes[vname] = [str(o[0]) if isinstance(o, list) and o else str(o) for o in r["out"]]
+        for v in r["viol"]:
+            v = dict(v, variant=vname)
+            v["signature"] = v["signature"] + "/" + vname
+            viol.append(v)
+        if viol:
+            break
+    return dict(out=[], viol=viol[:1], info=dict(nontrivial=True, stats=stats))
